@@ -267,4 +267,26 @@ func configure(g *gen) {
 			{Callee: "_.WithContext", Value: "({ %1 with original := some %2 } : GoRt.OReq)", T: oreq},
 			{Callee: "h.ServeHTTP", Stmts: []string{"served := some %2"}},
 		}})
+	// pkg/binding: the source decision of `Auto` (which binder reads what); the binders themselves and the two
+	// form parsers are operations whose only modelled effect is to be recorded as the chosen source
+	breq := T{"opaque", "GoRt.BReq"}
+	bsrc := func(name string) []string { return []string{"src := GoRt.BindSrc." + name} }
+	add(FnSpec{Pkg: "pkg/binding", Func: "Auto", Lean: "bindingAuto",
+		Extra:    []string{"(parseFormErr parseMultipartErr bindErr : Bool)"},
+		Prologue: []string{"let mut src : GoRt.BindSrc := GoRt.BindSrc.none"}, RetExtra: []string{"src"}, RetExtraT: []string{"GoRt.BindSrc"},
+		Types: map[string]T{"*http.Request": breq, "any": {"opaque", "Unit"}, "interface{}": {"opaque", "Unit"}},
+		Exts: []Ext{
+			{Callee: "_.Method", Value: "(%1).method", T: tStr},
+			{Callee: "_.Header.Get", Value: "((%1).header %2)", T: tStr},
+			{Callee: "_.URL.Query", Value: "()", T: T{"opaque", "Unit"}},
+			{Callee: "_.PostForm", Value: "()", T: T{"opaque", "Unit"}},
+			{Callee: "DefaultMaxMemory", Value: "()", T: T{"opaque", "Unit"}},
+			{Callee: "_.ParseForm", Stmts: bsrc("form"), Value: "parseFormErr", T: T{"opaque", "Bool"}},
+			{Callee: "_.ParseMultipartForm", Stmts: bsrc("multipart"), Value: "parseMultipartErr", T: T{"opaque", "Bool"}},
+			{Callee: "Query.BindValues", Stmts: bsrc("query"), Value: "bindErr", T: T{"opaque", "Bool"}},
+			{Callee: "Form.BindValues", Value: "bindErr", T: T{"opaque", "Bool"}},
+			{Callee: "JSON.Bind", Stmts: bsrc("json"), Value: "bindErr", T: T{"opaque", "Bool"}},
+			{Callee: "XML.Bind", Stmts: bsrc("xml"), Value: "bindErr", T: T{"opaque", "Bool"}},
+			{Callee: "errors.New", Value: "true", T: T{"opaque", "Bool"}},
+		}})
 }
